@@ -1,14 +1,14 @@
 """C06 first offending token, no cascade (partial): S8..S11."""
-from .. import skel
+from .. import skel, tval
 from . import common
 
 LEVEL = "other"
-EXHAUSTIVE = True
+EXHAUSTIVE = False
 EXPLANATION = ("Active-error protocol of the skeleton, on all paths of every instance: diagnostics are pushed only behind the "
                "active_error guard together with setting error_since_advance (S9); the guard is cleared only by a successful "
                "consumption (S10); diagnostic spans come from Parser::span, which reads spans[pos] or max_offset (S11); a report "
                "precedes error-mode consumption (S8). Gives at most one syntax diagnostic per consumed token with spans inside the "
-               "source. 'Earliest possible position' needs exact predict sets and is not decided.")
+               "source. 'Earliest possible position' needs exact decision sets: TVAL validates, for the 300+ rule functions of the analysed grammars that are not left-recursive, predicate-free and not used in an ordered choice, that every decision of the emitted code uses exactly the first/follow/predict sets recomputed from the grammar text (sampled grammars); for the remaining rule functions it is not decided.")
 
 
 def run(ctx, rep):
@@ -18,4 +18,6 @@ def run(ctx, rep):
         lambda i, r, o: skel.s10_clear(i, r),
         lambda i, r, o: skel.s11_span(i, r),
     ])
+    tval.tval_rule(ctx, rep)
+    common.corpus_note(ctx, rep)
     rep.assume("user-written callbacks do not push diagnostics behind the parser's back (assertion_* return a diagnostic; C06 excludes assertions)")
